@@ -36,7 +36,7 @@ def _fresh_matrix(base, shape):
 def _assume_eq(A, B, note):
     A, B = np.broadcast_arrays(np.asarray(A, dtype=object), np.asarray(B, dtype=object))
     for x, y in zip(A.flat, B.flat):
-        ENG.assume(mkbool(lift(x) == lift(y)), note)
+        ENG.assume(mkbool(lift(x) == lift(y)), note, bulk=True)
 
 
 def _eye(n):
